@@ -1130,6 +1130,21 @@ pub(crate) fn pad(ident: usize, f: &mut fmt::Formatter<'_>) -> fmt::Result {
     Ok(())
 }
 
+/// Like [`get_root_node_struct`], but also requires the structure to be closed by its
+/// end-of-container marker and `data` to hold nothing but that one structure.
+pub fn get_root_node_struct_exact(data: &[u8]) -> Result<TLVElement<'_>, Error> {
+    let element = get_root_node_struct(data)?;
+
+    let control = element.control()?;
+    let len = 1 + control.tag_type.size() + element.raw_value()?.len();
+
+    if len != data.len() {
+        Err(ErrorCode::InvalidData)?;
+    }
+
+    Ok(element)
+}
+
 /// For backwards compatibility
 pub fn get_root_node_struct(data: &[u8]) -> Result<TLVElement<'_>, Error> {
     // TODO: Check for trailing data
